@@ -48,7 +48,7 @@ def validator():
 
 
 def plan(tier):
-    n, per = (12, 120) if tier == 'quick' else (16, 5000)
+    n, per = (16, 500) if tier == 'quick' else (16, 5000)
     sh = [{'kind': 'documents', 'n': per} for _ in range(n)]
     if tier == 'thorough':       # coverage-guided campaigns on the same test (atheris), own seed and corpus each
         sh += [{'kind': 'fuzz', 'target': 'documents', 'runs': 6000} for _ in range(6)]
